@@ -50,12 +50,16 @@ def make_skeleton(spec):
             'switch': 'switch (v1) {{ case 1: const _0 = %s; f1(_0); }}', 'fn': 'function g() {{ const _0 = %s; return _0; }}',
             'arrow-expr': 'const _0 = (() => %s)();', 'arrow-loop': 'const g = () => {{ for (;;) {{ const _0 = %s; return _0; }} }};',
             'if-in-loop': 'for (const v5 of [v1]) {{ if (v5) {{ const _0 = %s; f1(_0); }} }}', 'try-in-loop': 'while (v1) {{ try {{ const _0 = %s; f1(_0); }} finally {{ f1(); }} }}',
-            'labeled': 'outer: for (;;) {{ const _0 = %s; if (_0) break outer; }}'}[spec.get('wrap')]
+            'labeled': 'outer: for (;;) {{ const _0 = %s; if (_0) break outer; }}',
+            'param-default-fn': 'function g(a = %s) {{ return a; }}', 'param-default-arrow': 'const g = (a = %s) => a;', 'class-field': 'class K {{ f = %s; }}', 'static-field': 'class K {{ static f = %s; }}',
+            'while-test': 'while (f1(%s)) {{ f1(); }}', 'for-update': 'for (let i = 0; i < 2; i = f1(%s)) {{ f1(); }}', 'for-init': 'for (let q = %s; v1; ) {{ f1(q); }}',
+            'for-of-right': 'for (const q of [%s]) {{ f1(q); }}', 'method': 'class K {{ m() {{ return %s; }} }}', 'arrow-in-loop': 'for (const q of [v1]) f1(() => %s);',
+            'do-test': 'do {{ f1(); }} while (f1(%s));'}[spec.get('wrap')]
     src = PRELUDE + wrap % jsx + '\n'
     opts = {'enable_object_slots': 'sym', 'optimize': 'sym'}
     opts.update(spec.get('opts', {}))
     return Skeleton('kids#%s|%s|%s%s' % (spec['host'], ','.join(spec['kids']), spec.get('vslots', ''), '|' + spec['wrap'] if spec.get('wrap') else ''), src, leaves, opts,
-                    patterns=['opaque'] if spec['host'] == 'cust' else None, meta={'family': 'kids/' + spec['host']})
+                    patterns=['opaque'] if spec['host'] == 'cust' else None, meta={'family': 'kids/' + spec['host'], 'no_decl': '_0' not in wrap})
 
 
 def extra_constraints(skel):
@@ -68,6 +72,14 @@ def oracle(env):
     ctx = env.ctx
     el = find_input_element(env.pre)
     out = jsout.find_decl_init(env.post, '_0')
+    if el is None and jsout.find_decl_init(env.pre, '_0') is None:
+        # positions that cannot hold a `const _0 = ...` (parameter defaults, class fields, loop heads): only the obligations on
+        # the temporaries are stated here; what the children become is decided in the declaration contexts
+        mv0 = denote.ModuleView(env.post)
+        obs0 = temp_obligations(env, mv0)
+        if ctx.decide(env.opts.get('enable_object_slots', True)) and not obs0:
+            obs0.append(Obligation('harness: the call child goes through a temporary', False))
+        return obs0
     if el is None or out is None:
         raise Unsupported('harness: element not found')
     if not (isinstance(el, Adt) and el.ty == 'Expr' and el.variant in ('JSXElement', 'JSXFragment')):
@@ -137,19 +149,23 @@ FN_TYS = ('Function', 'ArrowExpr', 'Constructor', 'GetterProp', 'SetterProp', 'S
 FIELD_TYS = ('ClassProp', 'PrivateProp')
 
 
+# which parts of a loop statement are evaluated once per iteration
+REPEATED = {'ForStmt': ('test', 'update', 'body'), 'ForInStmt': ('body',), 'ForOfStmt': ('body',), 'WhileStmt': ('test', 'body'), 'DoWhileStmt': ('test', 'body')}
+
+
 def _path_to(root, target):
-    """nodes from root down to target (by identity), or None"""
+    """[(node, name of the field of that node the path continues through)] from root down to target (by identity), or None"""
     stack = []
 
     def go(v):
         if v is target:
-            stack.append(v); return True
+            stack.append((v, None)); return True
         if isinstance(v, Adt):
-            stack.append(v)
-            for f in v.fields:
+            for i, f in enumerate(v.fields):
+                stack.append((v, v.names[i] if v.names and i < len(v.names) else i))
                 if go(f):
                     return True
-            stack.pop()
+                stack.pop()
         elif isinstance(v, list):
             for f in v:
                 if go(f):
@@ -199,16 +215,25 @@ def temp_obligations(env, mv):
         if dp is None or up is None:
             continue
         kind = decls[0].get('kind').variant
-        chain = [n for n in dp[:-1] if isinstance(n, Adt)]
+        chain = [n for n, _ in dp[:-1] if isinstance(n, Adt)]
         if kind == 'Var':
             scope = [n for n in chain if n.ty in FN_TYS + ('Module', 'Script')][-1]
         else:
             scope = [n for n in chain if n.ty in ('BlockStmt', 'Module', 'Script', 'SwitchStmt') or n.ty in FN_TYS][-1]
-        ids = [id(n) for n in up]
+        ids = [id(n) for n, _ in up]
         if id(scope) not in ids:
             continue            # (not in scope: C06)
-        below = [n for n in up[ids.index(id(scope)) + 1:] if isinstance(n, Adt)]
-        crossing = [('loop' if n.ty in LOOP_TYS else 'function' if n.ty in FN_TYS else 'class-field') for n in below if n.ty in LOOP_TYS + FN_TYS + FIELD_TYS]
+        last = len(ids) - 1 - ids[::-1].index(id(scope))
+        crossing = []
+        for n, fld in up[last + 1:]:
+            if not isinstance(n, Adt):
+                continue
+            if n.ty in LOOP_TYS and fld in REPEATED[n.ty]:
+                crossing.append('loop ' + str(fld))
+            elif n.ty in FN_TYS:
+                crossing.append('function')
+            elif n.ty in FIELD_TYS and fld == 'value' and n.get('is_static') is not True:
+                crossing.append('class-field')
         obs.append(Obligation('the temporary holding a call child belongs to one evaluation of the element (no loop / function between its scope and its use)',
                               not crossing, {'crossing': crossing[:2], 'declared_with': kind.lower(), 'temp': t.get('sym')}))
     return obs
@@ -288,7 +313,8 @@ def jobs(tier):
                 extra.append({'module': MOD, 'spec': {'host': h, 'kids': [k], 'wrap': w}})
     for h in (('Foo',) if tier == 'quick' else ('Foo', 'C1', 'mem')):
         for k in (('call', 'id', 'mem') if tier == 'quick' else ('call', 'id', 'mem', 'optcall', 'spcall', 'el', 'arrow')):
-            for w in ('for-of', 'while', 'for', 'do', 'for-in', 'for-of-bare', 'switch', 'fn', 'arrow-expr', 'arrow-loop', 'if-in-loop', 'try-in-loop', 'labeled'):
+            for w in ('for-of', 'while', 'for', 'do', 'for-in', 'for-of-bare', 'switch', 'fn', 'arrow-expr', 'arrow-loop', 'if-in-loop', 'try-in-loop', 'labeled') + \
+                    (('param-default-fn', 'param-default-arrow', 'class-field', 'static-field', 'while-test', 'for-update', 'for-init', 'for-of-right', 'method', 'arrow-in-loop', 'do-test') if k == 'call' else ()):
                 extra.append({'module': MOD, 'spec': {'host': h, 'kids': [k], 'wrap': w}})
     return extra + _jobs(tier)
 
@@ -314,6 +340,11 @@ def classify(v, detail):
     if v['obligation'].startswith('the temporary holding a call child'):
         ctxm = re.search(r'\n(for|while|do|switch|function|outer:|const g)\b', v['source'])
         bare = ' without a block' if re.search(r'\) var _0 = ', v['source']) else ''
+        wrap = v['skeleton'].rsplit('|', 1)[-1]
+        if wrap in ('param-default-fn', 'param-default-arrow', 'class-field', 'while-test', 'for-update', 'do-test') and info.get('declared_with') == 'let':
+            # positions that are evaluated repeatedly and cannot hold a declaration
+            pos = {'param-default-fn': 'parameter-default', 'param-default-arrow': 'parameter-default', 'while-test': 'loop-test', 'do-test': 'loop-test', 'for-update': 'loop-update'}.get(wrap, wrap)
+            return 'call-child-temporary-is-shared-by-all-evaluations-of-a-%s' % pos
         return 'temporary of a call child shared across %s (declared with %s)%s' % ('/'.join(info.get('crossing') or ['?']), info.get('declared_with'), bare)
     return '%s | child=%s | %s' % (v['obligation'][:40], shape, vs)
 
